@@ -15,7 +15,7 @@
 using namespace sim;
 
 namespace {
-const char* const kNames[] = {"mutex_cv", "static_init", "adder_gens", "dekker", "mp_relaxed", "mp_release", "sleepers", "detached", nullptr};
+const char* const kNames[] = {"mutex_cv", "static_init", "adder_gens", "dekker", "mp_relaxed", "mp_release", "sleepers", "detached", "busy_hang", nullptr};
 
 struct Lazy { uint64_t a[8]; Lazy() { for (int i = 0; i < 8; i++) { a[i] = 42 + (uint64_t)i; sim::yield_point(); } } };
 Lazy& lazy() { static Lazy l; return l; }
@@ -34,6 +34,10 @@ void run(const Plan& p) {
   int n = (int)std::max<int64_t>(2, std::min<int64_t>(op.a, 5));
   OpScope sc(op.id);
   switch (op.kind) {
+    case 8: {  // --mode 8 only: must end in class hang (self-test of the CPU-time hang detector)
+      volatile uint64_t x = 1;
+      for (;;) x = x * 6364136223846793005ULL + 1;
+    }
     case 0: {  // producer/consumer over mutex+cv
       std::mutex m; std::condition_variable cv; int items = 0, taken = 0;
       std::vector<std::thread> th;
